@@ -3,6 +3,7 @@
   rests on the pitch-search termination theorem below and on C03/C04's invariants).
 -/
 import OpnVerif.Lemmas.Wopn
+import OpnVerif.Props.C10
 
 namespace Opn.C02
 open Opn Opn.Wopn
@@ -83,5 +84,40 @@ theorem loadInst_total (b : Bytes) : ∃ r, loadInst b = .ok r := by
         obtain ⟨i, hi⟩ := parseInst_ok v false (cur.take 65) (by simp [List.length_take]; omega)
         rw [hi]
         exact ⟨_, rfl⟩
+
+/-! ## accepted banks are playable: the note-on frequency search terminates
+
+`OPN2::noteOn` refuses `hertz < 0 || hertz > 131071` (fix e79c9cc; NaN fails neither test and +∞ fails the second) and
+otherwise runs two loops on `hertz`.  Whatever instrument fields an accepted bank or `opn2_setInstrument` supplied
+(all 2^16 note offsets, any drum key), the value reaching the loops is a finite double, i.e. a dyadic rational. -/
+
+/-- **C02, no hang at note-on**: for every frequency the guard lets through (any dyadic value up to 131071 Hz —
+    in fact for every finite double) the octave/multiplier search of the model of `OPN2::noteOn` terminates with a
+    result: the fuel of the multiplier loop (1100) is never exhausted. -/
+theorem noteon_search_terminates (h : Pitch.Dy) (hguard : h.n ≤ 131071 * 2 ^ h.k) : ∃ r, Pitch.search h = .ok r := by
+  apply C10.search_total
+  have h1 : (131071 : Nat) < 2 ^ C10.maxDoubleExp := by
+    unfold C10.maxDoubleExp
+    calc (131071 : Nat) < 2 ^ 17 := by decide
+      _ ≤ 2 ^ 1024 := Nat.pow_le_pow_right (by decide) (by decide)
+  calc h.n ≤ 131071 * 2 ^ h.k := hguard
+    _ < 2 ^ C10.maxDoubleExp * 2 ^ h.k := Nat.mul_lt_mul_of_pos_right h1 (Nat.pos_of_ne_zero (by exact Nat.ne_of_gt (Nat.two_pow_pos _)))
+
+/-- within the guard the octave loop runs at most 7 times and the multiplier loop at most 7 times
+    (131071 / 2^7 < 2036.75 · 2^… : seven halvings bring any admitted frequency below the threshold) -/
+theorem noteon_search_short (h : Pitch.Dy) (hguard : h.n ≤ 131071 * 2 ^ h.k) :
+    ∃ r, Pitch.loop2 8 (Pitch.loop1 8 h 0).1 0 = .ok r := by
+  obtain ⟨b, hb, he, _⟩ := C10.loop1_real h
+  rw [he]
+  apply C10.loop2_terminates
+  show h.n * 4 < 8147 * 2 ^ (h.k + b + 7)
+  have e : 2 ^ (h.k + b + 7) = 2 ^ h.k * 2 ^ b * 128 := by rw [Nat.pow_add, Nat.pow_add]
+  rw [e]
+  have h1 : 1 ≤ 2 ^ b := Nat.one_le_two_pow
+  calc h.n * 4 ≤ 131071 * 2 ^ h.k * 4 := Nat.mul_le_mul_right _ hguard
+    _ = 2 ^ h.k * 524284 := by rw [Nat.mul_comm 131071, Nat.mul_assoc]
+    _ < 2 ^ h.k * (8147 * 128) := Nat.mul_lt_mul_of_pos_left (by decide) (Nat.two_pow_pos _)
+    _ = 8147 * (2 ^ h.k * 1 * 128) := by rw [Nat.mul_one, ← Nat.mul_assoc, Nat.mul_comm (2 ^ h.k) 8147, Nat.mul_assoc]
+    _ ≤ 8147 * (2 ^ h.k * 2 ^ b * 128) := Nat.mul_le_mul_left _ (Nat.mul_le_mul_right _ (Nat.mul_le_mul_left _ h1))
 
 end Opn.C02
